@@ -69,12 +69,16 @@ EDITS = {
     'event-payload-struct-edited': [('pub struct Progress { pub done: u32 }', 'pub struct Progress { pub done: u32, pub total: Option<u32> }')],
     'channel-added': [('user_id: i32)', 'user_id: i32, on_progress: tauri::ipc::Channel<Progress>)')],
     'private-field-type': [('    secret: String,', '    secret: u64,')],
+    # the listener is typed after the first emit of a name: an edit of that first payload changes events.ts
     # edits that must NOT change the output: they keep the cached branch ("up to date") under test
     'comment-only': [('#[tauri::command]\npub fn get_user', '// a comment\n#[tauri::command]\npub fn get_user')],
     'helper-fn-added': [('#[tauri::command]\npub fn get_user', 'fn helper(x: i32) -> i32 { x + 1 }\n#[tauri::command]\npub fn get_user')],
 }
+TWO_EMIT_BASE = BASE.replace('    true\n', '    app.emit("sync", 7u32).unwrap();\n    report(&app);\n    true\n') + 'pub fn report(app: &tauri::AppHandle) { app.emit("sync", String::new()).unwrap(); }\n'
 CHANNEL_BASE = BASE.replace('user_id: i32)', 'user_id: i32, on_progress: tauri::ipc::Channel<Progress>)')
 EDITS_CH = {
+    'event-first-of-two-payload': (TWO_EMIT_BASE, [('app.emit("sync", 7u32)', 'app.emit("sync", true)')]),
+    'event-second-of-two-payload': (TWO_EMIT_BASE, [('app.emit("sync", String::new())', 'app.emit("sync", 1.5f64)')]),
     'channel-type': (CHANNEL_BASE, [('Channel<Progress>', 'Channel<Status>')]),
     'channel-removed': (CHANNEL_BASE, [(', on_progress: tauri::ipc::Channel<Progress>', '')]),
 }
@@ -121,9 +125,9 @@ def seq_applies(seq):
 class C08(H.Check):
     id = 'C08'
     title = 'The cache never leaves stale bindings: success means output is current'
-    INERT = ('include-private', 'comment-only', 'helper-fn-added')      # includePrivate is hashed but read by no generator: the edit cannot change the output
+    INERT = ('include-private', 'comment-only', 'helper-fn-added', 'event-second-of-two-payload')      # includePrivate is hashed but read by no generator: the edit cannot change the output
     required_covers = ('path:cli', 'path:build', 'second-run:up-to-date', 'second-run:regenerated', 'edit:source', 'edit:config', 'edit:file-lost', 'sequence', 'two-outputs') + \
-        tuple('effective:' + l for l in list(EDITS) + list(EDITS_CH) + list(CONF_EDITS) + list(FILE_EDITS) + ['file-lost:' + f for f in LOST] if l not in ('include-private', 'comment-only', 'helper-fn-added'))
+        tuple('effective:' + l for l in list(EDITS) + list(EDITS_CH) + list(CONF_EDITS) + list(FILE_EDITS) + ['file-lost:' + f for f in LOST] if l not in ('include-private', 'comment-only', 'helper-fn-added', 'event-second-of-two-payload'))
 
     def bounds(self, tier):
         return {'edit classes': sorted(list(EDITS) + list(EDITS_CH) + list(CONF_EDITS) + list(FILE_EDITS) + ['file-lost:' + f for f in LOST]),
